@@ -184,3 +184,58 @@ func liteSecs(secs int) int {
 	}
 	return 10
 }
+
+// retryFailed gives obligations that ended without a definite answer a second, calmer attempt
+// (few workers, longer limits): under machine load the first parallel pass can time out on
+// obligations that discharge in a second when run alone. Bounded so that a genuinely broken tree
+// does not cost minutes.
+func retryFailed(obls []*Obligation, workDir string, secs int) int {
+	var todo []*Obligation
+	for _, o := range obls {
+		if o.Cover || o.Result == nil || o.Result.Status == "unsat" || o.Result.Status == "sat" {
+			continue
+		}
+		todo = append(todo, o)
+	}
+	if len(todo) == 0 || len(todo) > 24 {
+		return 0
+	}
+	var wg sync.WaitGroup
+	sem := make(chan struct{}, 3)
+	fixed := 0
+	var mu sync.Mutex
+	for i, o := range todo {
+		wg.Add(1)
+		sem <- struct{}{}
+		go func(i int, o *Obligation) {
+			defer wg.Done()
+			defer func() { <-sem }()
+			lfile := filepath.Join(workDir, fmt.Sprintf("retry%03d_%s.lite.smt2", i, safeName(o.ID)))
+			lite := o.ctx.render(o.PC, o.Goal, false, o.Cands, o.Lens, true)
+			os.WriteFile(lfile, []byte("; retry of "+o.ID+"\n"+lite), 0o644)
+			st, out, dur := runSolver(context.Background(), solvers[0], lfile, 30)
+			if st == "unsat" {
+				fi, _ := os.Stat(lfile)
+				o.Result = &SolveResult{Status: "unsat", Solver: solvers[0].name + "(ground,retry)", TimeS: dur, Output: out, File: lfile, Bytes: int(fi.Size()), Tried: []string{"retry-ground:unsat"}}
+				mu.Lock()
+				fixed++
+				mu.Unlock()
+				return
+			}
+			file := filepath.Join(workDir, fmt.Sprintf("retry%03d_%s.smt2", i, safeName(o.ID)))
+			os.WriteFile(file, []byte("; retry of "+o.ID+"\n"+o.ctx.render(o.PC, o.Goal, false, o.Cands, o.Lens, false)), 0o644)
+			r := solve(file, secs*3)
+			if r.Status == "unsat" || r.Status == "sat" {
+				r.Solver += "(retry)"
+				o.Result = r
+				if r.Status == "unsat" {
+					mu.Lock()
+					fixed++
+					mu.Unlock()
+				}
+			}
+		}(i, o)
+	}
+	wg.Wait()
+	return fixed
+}
